@@ -684,7 +684,7 @@ class Interp:
         # a field the specification does not declare (e.g. a cache attribute introduced later): nothing is known about it,
         # not even that it is set — `if self._cache is None:` explores both arms
         v = Val(data={"self." + attr}, term=("self", attr), fresh=("ALIAS", frozenset({"self." + attr})),
-                tags={"undeclared_field": True})
+                tags={"undeclared_field": True, "self_container": attr})
         return v
 
     def e_Subscript(self, e):
@@ -1297,6 +1297,8 @@ class Interp:
             if isinstance(t.value, ast.Name) and t.value.id == "self" and fr.env.get("self") is not None \
                     and fr.env["self"].tag("kind") == "self":
                 self.emit("self_store", node, attr=t.attr, val=v)
+                if v.tag("kind") in ("dict", "list", "set"):
+                    v.tags["self_container"] = t.attr          # (the same object may also be bound to a local name: cache = self._c = {})
                 self.ctx.selfenv[t.attr] = v.with_ctrl(c)
                 return
             base = self.ev(t.value)
@@ -1348,6 +1350,8 @@ class Interp:
                 self.emit("method_as_value", node, method=base.tag("bound_array_method"), recv=base.tag("recv"),
                           how="subscript-store")
                 return
+            if base.tag("self_container") and isinstance(t.value, ast.Name):
+                self.emit("self_store", node, attr=base.tag("self_container"), val=v, how="item")     # through a local alias of the field
             if not aug:
                 self.emit("inplace", node, target=base, value=v, how="subscript", index=idx, tnode=t.value)
             # unit of a zero-initialised array is set by the first store
@@ -1413,6 +1417,9 @@ class Interp:
         fr = self.fr
         if base.tag("module_const"):
             self.emit("global_mutation", node, name=base.tag("module_const"), how="item store")
+        if base.tag("self_container") and not (base.tag("self_dict") or base.tag("self_dict_member")):
+            # item store into a container that IS (or may be) a field of the estimator, possibly through a local alias
+            self.emit("self_store", node, attr=base.tag("self_container"), val=v, how="item")
         if base.tag("self_dict") or base.tag("self_dict_member"):
             self.emit("self_store", node, attr=(idx.const if (idx.known and isinstance(idx.const, str) and base.tag("self_dict")) else
                                                 base.tag("self_dict_member") or "__dict__[…]"), val=v)
